@@ -37,7 +37,8 @@ TStep == /\ l <= Len(Trace) /\ Ev.e = "Step" /\ l' = l + 1
          \* the mechanism (the complete records before the torn one are merged, the torn one is retried later)
          /\ (Ev.err # 0) => (Ev.view.partial /\ Ev.t % U = 0)
          /\ (Ev.err = 0) => Ev.E = SumE(own'[Ev.w], Ev.w, Ev.x) + SumE(mir'[Ev.w], Peer(Ev.w), Ev.x)
-TNext == TReset \/ TStep
+TRestart == /\ l <= Len(Trace) /\ Ev.e = "Restart" /\ l' = l + 1 /\ Restart(Ev.w)
+TNext == TReset \/ TStep \/ TRestart
 TInit == WInit /\ l = 1
 TSpec == TInit /\ [][TNext]_tvars
 Progress == PrintT(<<"MAXL", l>>) /\ ((\E w \in Walkers : missing[w] # {}) => PrintT(<<"MISSING", l, quirk, missing>>))
